@@ -316,6 +316,9 @@ func runHarness(prog *ssa.Program, models map[string]*ssa.Function, hp *ssa.Pack
 		budget = 60 * time.Minute
 		pathsMax = 5_000_000
 	}
+	if v, err := time.ParseDuration(os.Getenv("SSASYM_BUDGET")); err == nil {
+		budget = v
+	}
 	e.harness = &HarnessRun{ID: id, Name: fn.Name(), Pkg: hp.Pkg.Path(), Tier: tier, Fn: fn, PathsMax: pathsMax, Deadline: t0.Add(budget)}
 	e.wantWitnesses = 8
 	if tier == "thorough" {
